@@ -151,9 +151,16 @@ FindCase(p) ==
 \* ---- Cks (C10): calc_checksum on boundary and structured values ----------------------------------------------------------------
 CkWords == { <<0, 0, 0, 0>>, <<1, 0, 0, 0>>, <<255, 255, 255, 255>>, <<0, 0, 0, 128>>, <<255, 255, 255, 127>>,
              <<42, 175, 173, 23>>, <<0, 0, 0, 32>>, <<16, 0, 0, 0>>, <<214, 80, 82, 232>> }
-CksParams == { [m |-> m, a |-> a, l |-> l] : m \in {HdrMagic, <<0, 0, 0, 0>>, <<255, 255, 255, 255>>}, a \in {0, 4}, l \in CkWords }
+CksParams == { [m |-> m, a |-> a, l |-> l, ck |-> ck] : m \in {HdrMagic, <<0, 0, 0, 0>>, <<255, 255, 255, 255>>}, a \in {0, 4}, l \in CkWords,
+                                                      ck \in {"ok", "plus", "minus", "top"} }
+\* the same triple as a bare 16-byte basic header, with the right checksum and with three wrong ones
 CksCase(p) ==
-  [mem |-> <<>>, al |-> 0,
-   calls |-> <<[op |-> "calc_checksum", magic |-> p.m, arch |-> p.a, length |-> p.l]>>,
+  [mem |-> p.m \o U32Bytes(p.a) \o p.l
+           \o LimbBytes(LimbAdd(ChecksumLimb(Limb(p.m), Limb(U32Bytes(p.a)), Limb(p.l)),
+                                 CASE p.ck = "ok" -> LimbZero [] p.ck = "plus" -> [lo |-> 1, hi |-> 0]
+                                   [] p.ck = "minus" -> [lo |-> 65535, hi |-> 65535] [] OTHER -> [lo |-> 0, hi |-> 32768])),
+   al |-> 0,
+   calls |-> <<[op |-> "calc_checksum", magic |-> p.m, arch |-> p.a, length |-> p.l]>>
+             \o [i \in 1..6 |-> [op |-> "basic", f |-> <<"header_magic", "arch", "length", "checksum", "verify_checksum", "dbg">>[i]]],
    desc |-> [area |-> "cks"] @@ p]
 =============================================================================
